@@ -231,7 +231,7 @@ class Prop:
                          bad[0][1], bad[0][2], {'kind': 'field', 'class': cname, 'fields': sorted(k for k, _, _ in bad)[:3], 'how': how})
 
     def run(self, ctx):
-        ops, meta = self.make_cases(ctx, 12 if ctx.tier == 'quick' else 150)
+        ops, meta = self.make_cases(ctx, 40 if ctx.tier == 'quick' else 400)
         self.evaluate(ctx, ops, meta)
 
     def search(self, ctx, broken):
